@@ -225,9 +225,31 @@ class C17(Prop):
         for r in results:
             head = ('#[::derive_ex::derive_ex(%s)]\n' % r.attr) if r.mode == 'A' else '#[derive(::derive_ex::Ex)]\n'
             mods.append(l2.Module(r.cid, l2.decl(head, r.item, r.cid, every=5) + '\npub fn run() {}', r))
+        # generic (also recursive) items with a float-like component INSIDE a field type that mentions a parameter or the item
+        # itself: no instantiation may be `Eq`; the twin with an `Eq` component in its place is `Eq` (hand-written)
+        class _Lit:
+            def __init__(self, text, ok):
+                self.text, self.meta = text, dict(ok=ok, nontrivial=True, other_reason='overflow evaluating the requirement')
+            def input_text(self):
+                return self.text
+        lits = []
+        for k, (decl, inst, ok) in enumerate(GENERIC_COMPONENTS):
+            for mi, head in enumerate(('#[::derive_ex::derive_ex(Eq, PartialEq)]', '#[derive(::derive_ex::Ex)] #[derive_ex(PartialEq, Eq)]')):
+                lits.append(l2.Module(8 * 10 ** 6 + 2 * k + mi, '%s\n%s\npub fn need<T: Eq>() {}\npub fn run() { need::<%s>(); }' % (head, decl, inst),
+                                      _Lit('%s %s   [then `%s: Eq` is required]' % (head.replace('::derive_ex::', ''), decl, inst), ok)))
         nb = max(1, min(R.NPROC, len(mods) // 40 + 1))
         batches = [('c17_%d' % k, mods[k::nb]) for k in range(nb)]
         l2.compile_parallel(batches, prelude=PRELUDE, check_only=True)
+        # (one rustc run each: the overflow error of a recursive requirement has no location to place it by)
+        from concurrent.futures import ThreadPoolExecutor
+        l2.ensure_macro()
+        with ThreadPoolExecutor(max_workers=R.NPROC) as ex:
+            sts = list(ex.map(lambda mo: l2.compile_status('c17lit_%d' % mo.cid, [mo], prelude=PRELUDE), lits))
+        for mo, (rc, errs, _) in zip(lits, sts):
+            mo.compiled = rc == 0
+            mo.diags = [dict(level='error', message=e) for e in errs]
+            l2.cleanup('c17lit_%d' % mo.cid)
+        mods = mods + lits
         failures, validated, samples = [], 0, []
         for mo in mods:
             r = mo.meta
@@ -249,6 +271,19 @@ class C17(Prop):
             l2.cleanup(name)
         return dict(evaluations=len(mods), validated=validated, programs=len(mods), failures=failures, samples=samples,
                     accepted=sum(1 for m in mods if m.compiled), rejected=sum(1 for m in mods if not m.compiled))
+
+
+# (declaration, instantiation asked to be Eq, is it?)
+GENERIC_COMPONENTS = [
+    ('pub struct X<T>(pub Option<(T, F)>);', 'X<u8>', False),
+    ('pub struct X<T>(pub Option<(T, u8)>);', 'X<u8>', True),
+    ('pub struct X<T> { pub v: T, pub next: (F, Option<Box<X<T>>>) }', 'X<u8>', False),
+    ('pub enum X<T> { Nil, Cons(T, Box<(F, X<T>)>) }', 'X<u8>', False),
+    ('pub struct X<T> { pub v: T, pub w: Vec<(F, Self)> }', 'X<u8>', False),
+    ('pub struct X<T> { pub v: [T; 2], pub w: ::core::marker::PhantomData<(F, T)> }', 'X<u8>', True),   # PhantomData<_> is Eq
+    ('pub struct X<T, U>(pub T, pub (U, u8));', 'X<u8, F>', False),
+    ('pub struct X<T, U>(pub T, #[eq(ignore)] pub (U, u8));', 'X<u8, F>', True),
+]
 
 
 PROP = C17()
